@@ -15,7 +15,9 @@ RULE = ("Hermitian A = U diag(lambda) U^H (symmetrised bit-for-bit) with prescri
         "and quaternion_eigendecomposition (+ the two wrappers) are judged on each; non-Hermitian (relative skew 1e-2, 1) and non-square "
         "inputs must raise. distinct = input digest; non-trivial = n >= 2 and A != 0")
 ASSUMPTIONS = ["backward-error constant c = 1e3; eigenvalues compared with eigvalsh of the complex adjoint (LAPACK) and with the generator's ground truth",
-               "the Hermitian guards use allclose(rtol 1e-5, atol 1e-10): rejection is only required for relative skew >= 1e-2"]
+               "the Hermitian guards use allclose(rtol 1e-5, atol 1e-10): rejection is only required for relative skew >= 1e-2",
+               "exact power-of-two scalings 2^-1000 .. 2^500 are exercised; above about 1e154 (squares of the entries overflow) the routines "
+               "raise OverflowError (check_tridiagonal squares Python floats) - a loud failure, not judged"]
 SHARDS = {"quick": 8, "thorough": 16}
 DECIDING = ["tri:P_unitary", "tri:B_real_tridiagonal_exact", "tri:B_symmetric", "tri:similarity", "tri:spectrum",
             "eig:values_real", "eig:values_true", "eig:residual", "eig:V_unitary", "eig:reconstruction",
@@ -32,13 +34,19 @@ STRUCT = ["diag_real", "tridiag_real", "tridiag_quat", "int", "zero_subcolumn", 
 
 def cases(tier, seed):
     out = []
-    maxn = 6 if tier == "quick" else 10
+    maxn = 6 if tier == "quick" else 16
     rep = 30 if tier == "quick" else 400
     idx = 0
     for pat in PATTERNS:
         for r in range(rep):
             out.append({"kind": "spectrum", "cls": "spectrum:" + pat, "pat": pat, "idx": idx, "seed": seed, "maxn": maxn})
             idx += 1
+    # exact power-of-two scalings into the range where squares of the entries under- or overflow
+    for pat in PATTERNS:
+        for p2 in (-1000, -900, -600, -540, -520, -400, 400, 500):
+            for r in range(1 if tier == "quick" else 4):
+                out.append({"kind": "spectrum", "cls": "spectrum:" + pat, "pat": pat, "idx": idx, "seed": seed, "maxn": min(maxn, 7), "pow2": p2})
+                idx += 1
     for st in STRUCT:
         for r in range(rep):
             out.append({"kind": "struct", "cls": "struct:" + st, "st": st, "idx": idx, "seed": seed, "maxn": maxn})
@@ -123,15 +131,20 @@ def truth_tags(eigs):
     return tags
 
 
-def judge(ctx, R, A, site, tags, eig_truth=None):
-    """Judge tridiagonalize (n >= 2) and the eigendecomposition of the Hermitian matrix A."""
+def judge(ctx, R, A, site, tags, eig_truth=None, pow2=0):
+    """Judge tridiagonalize (n >= 2) and the eigendecomposition of the Hermitian matrix A.
+
+    pow2 != 0: the routines are given A * 2**pow2 (exact) and B / the eigenvalues are scaled back exactly before they are judged, so
+    the oracle arithmetic stays in the normal range while the routines work where squares of the entries under- or overflow."""
+    Ain = A * 2.0 ** pow2 if pow2 else A
+    back = 2.0 ** (-pow2)
     n = A.shape[0]
     eps = refq.EPS
     nrm = refq.fro(A)
     floor = 1e-300
     lam_or = embed.eigvalsh(A)
     sc = max(float(np.max(np.abs(lam_or))) if n else 0.0, floor)
-    A0 = refq.fa(A).copy()
+    A0 = refq.fa(Ain).copy()
     if "repeated_eigenvalue" in tags:
         ctx.hit("pattern:repeated")
     if "zero_eigenvalue" in tags:
@@ -140,7 +153,10 @@ def judge(ctx, R, A, site, tags, eig_truth=None):
     if n >= 2:
         st = site + ":tridiagonalize"
         try:
-            P, B = R.tridiagonalize.tridiagonalize(A)
+            with np.errstate(all="ignore"):
+                P, B = R.tridiagonalize.tridiagonalize(Ain)
+            if pow2:
+                B = B * back
         except Exception as e:
             ctx.check("unexpected_exception", False, site=st, tags=tags, detail={"exception": repr(e), "n": n})
             P = None
@@ -161,16 +177,17 @@ def judge(ctx, R, A, site, tags, eig_truth=None):
                 wb = np.linalg.eigvalsh(0.5 * (Br + Br.T))
                 ctx.check("tri:spectrum", float(np.max(np.abs(wb - lam_or))), C * n * eps * n * sc + floor, site=st, tags=tags,
                           detail={"B_eigs": wb, "oracle": lam_or})
-            ctx.check("input_unchanged", np.array_equal(refq.fa(A), A0), site=st, tags=tags)
+            ctx.check("input_unchanged", np.array_equal(refq.fa(Ain), A0), site=st, tags=tags)
     # ---- eigendecomposition --------------------------------------------------------
     st = site + ":eigendecomposition"
     try:
-        lam, V = R.eigen.quaternion_eigendecomposition(A)
+        with np.errstate(all="ignore"):
+            lam, V = R.eigen.quaternion_eigendecomposition(Ain)
     except Exception as e:
         ctx.check("unexpected_exception", False, site=st, tags=tags, detail={"exception": repr(e), "n": n})
         return
-    ctx.check("input_unchanged", np.array_equal(refq.fa(A), A0), site=st, tags=tags)
-    lam = np.asarray(lam)
+    ctx.check("input_unchanged", np.array_equal(refq.fa(Ain), A0), site=st, tags=tags)
+    lam = np.asarray(lam) * back if pow2 else np.asarray(lam)
     ok = lam.shape == (n,) and V.shape == (n, n) and bool(np.all(np.isfinite(lam))) and refq.is_finite(V)
     ctx.check("eig:shapes_finite", ok, site=st, tags=tags, detail={"lam": lam.shape, "V": V.shape})
     if not ok:
@@ -189,9 +206,9 @@ def judge(ctx, R, A, site, tags, eig_truth=None):
     ctx.check("eig:reconstruction", refq.fro(refq.matmul(VL, refq.herm(V)) - A), C * n * eps * n * max(nrm, floor) + floor, site=st,
               tags=tags)
     try:
-        l2 = np.asarray(R.eigen.quaternion_eigenvalues(A))
-        V2 = R.eigen.quaternion_eigenvectors(A)
-        same = np.array_equal(l2, lam) and np.array_equal(refq.fa(V2), refq.fa(V))
+        l2 = np.asarray(R.eigen.quaternion_eigenvalues(Ain))
+        V2 = R.eigen.quaternion_eigenvectors(Ain)
+        same = np.array_equal(l2 * back if pow2 else l2, lam) and np.array_equal(refq.fa(V2), refq.fa(V))
     except Exception as e:
         same = False
     ctx.check("eig:wrappers_consistent", same, site=st, tags=tags)
@@ -204,6 +221,10 @@ def _spectrum(spec, ctx, R):
     A, _ = refq.hermitian_with_eigs(rng, e)
     tags = truth_tags(e)
     ctx.distinct(A, nontrivial=n >= 2 and refq.fro(A) > 0)
+    if spec.get("pow2"):
+        ctx.hit("scale:pow2_extreme")
+        judge(ctx, R, A, "prescribed:scaled_2^%d" % spec["pow2"], tags + ["extreme_scale"], eig_truth=e, pow2=spec["pow2"])
+        return
     judge(ctx, R, A, "prescribed", tags, eig_truth=e)
     if spec["idx"] % 23 == 0:
         ctx.sample({"pattern": spec["pat"], "n": n, "eigs": e, "tags": tags, "A": A})
